@@ -40,6 +40,10 @@ CLAIMED = {
              note="assumes the shim pulls the parameters of a rebinding execution (D13 limitation); fixed defect D2 re-checked", technique=T, ref="6 C16"),
  "C17": dict(text="Theorems (Properties/C17.v): chunks are concatenated in arrival order per (statement, parameter), do not disturb other parameters/statements, are consumed by exactly one execution, vanish on re-prepare; at the execution the parameter is the pending data without consuming inline bytes. Correspondence: random interleavings incl. empty and multi-packet chunks.",
              note="a client never sets the NULL bit of a long-data parameter", technique=T, ref="6 C17"),
+ "C19": dict(text="Theorems (Properties/C19.v): for every world (read errors at any read, one-off or persistent write/flush errors at any call index), configuration and error-propagating shim: any transport fault makes run_on return an error, never Ok; no callback is started after the fault; a stream ending at a command boundary or after QUIT gives Ok, inside a packet UnexpectedEof, before the handshake response ConnectionAborted; a shim error is returned unchanged. Correspondence = fault enumeration: every transport call index x {one-off, persistent}, every read index, every truncation point of ~15 conversations on the real code vs the model vs the oracle.",
+             note="shims that ignore writer errors (policy Ignore) are outside the theorem; fixed defect D8 (Drop unwrap panics) re-checked from the corpus", technique="Coq proof (invariant: every fault is reported or parked) + exhaustive fault enumeration on the real code", ref="6 C19"),
+ "C20": dict(text="Theorems (Properties/C20.v): for ALL client byte strings, chunkings and fault plans the connection terminates (fuel always suffices); every panic is at one of the named sites, and for shims that cannot panic themselves only at the five KNOWN client-reachable sites (out-of-order fragment ids; malformed EXECUTE parameter blocks), each shown reachable by a witness that is also replayed on the real code (KNOWN-FINDING). Correspondence: all strings over a 5-byte alphabet up to length 4/5, every command byte, every sequence id, parameter-block mutations, malformed handshakes, random streams.",
+             note="known findings D9/D14 are genuine defects recorded in known_findings.json (repair needs an API change); D6 (parse unwrap) fixed", technique="Coq proof (termination by fuel, panic-site enumeration, witness lemmas) + differential correspondence on malformed input", ref="6 C20"),
 }
 checks = []
 for p in props:
